@@ -1053,3 +1053,524 @@ Section RenderInj.
   Lemma value_inj v : Q v.
   Proof. exact (value_ind2 P Q case_C case_VStr case_VGrp case_VCls v). Qed.
 End RenderInj.
+
+Lemma c_eq_iff_render a b : c_eq a b = true <-> render a = render b.
+Proof. unfold c_eq. apply str_eqb_eq. Qed.
+
+Lemma render_inj_clean a b : clean a = true -> clean b = true -> render a = render b -> items a = items b.
+Proof.
+  intros Ca Cb H. rewrite !render_items in H.
+  assert (H' : join [124] (map field (items a)) ++ [] = join [124] (map field (items b)) ++ [])
+    by now rewrite !app_nil_r.
+  apply items_inj in H'; [now destruct H'| |exact Ca|exact Cb|exact I|exact I].
+  apply Forall_forall. intros kv _. apply value_inj.
+Qed.
+
+(* on containers without punctuation in tags and values, == is equality of content *)
+Lemma eq_iff_content a b :
+  clean a = true -> clean b = true -> (c_eq a b = true <-> items a = items b).
+Proof.
+  intros Ca Cb. rewrite c_eq_iff_render. split.
+  - now apply render_inj_clean.
+  - intros H. now rewrite !render_items, H.
+Qed.
+
+Lemma clean_tag_z_to_dec z : clean_tag (z_to_dec z) = true.
+Proof.
+  assert (D : forall n, clean_tag (n_to_dec n) = true).
+  { intros n. unfold clean_tag. rewrite digits_clean by apply n_to_dec_digits.
+    pose proof (n_to_dec_digits n) as F. pose proof (n_to_dec_nonempty n) as NE.
+    destruct (n_to_dec n) as [|c r]; [contradiction|]. inversion F as [|? ? Dc _]; subst.
+    unfold is_digit in Dc. cbn [andb]. lia. }
+  destruct z as [|p|p]; cbn [z_to_dec]; [reflexivity|apply D|].
+  specialize (D (Npos p)). unfold clean_tag in *. apply andb_true_iff in D. destruct D as [D1 D2].
+  cbn [clean_str forallb]. unfold clean_str in D1. rewrite D1. reflexivity.
+Qed.
+
+(* ================================================================ unique keys: an invariant of every operation *)
+
+Inductive wfc : container -> Prop :=
+| wf_C m l : NoDup (map fst l) -> Forall (fun kv => wfv (snd kv)) l -> wfc (C m l)
+with wfv : value -> Prop :=
+| wf_VStr s : wfv (VStr s)
+| wf_VGrp g : Forall wfc g -> wfv (VGrp g)
+| wf_VCls k x : wfv (VCls k x).
+
+Lemma wfc_keys c : wfc c -> NoDup (keys c).
+Proof. intros H. now inversion H. Qed.
+
+Lemma wfc_values c : wfc c -> Forall (fun kv => wfv (snd kv)) (items c).
+Proof. intros H. now inversion H. Qed.
+
+Lemma wfc_intro c : NoDup (keys c) -> Forall (fun kv => wfv (snd kv)) (items c) -> wfc c.
+Proof. destruct c. now constructor. Qed.
+
+Lemma wf_empty m : wfc (C m []).
+Proof. constructor; constructor. Qed.
+
+Lemma wf_lookup c k v : wfc c -> lookup k (items c) = Some v -> wfv v.
+Proof.
+  intros W L. apply lookup_In in L. pose proof (wfc_values _ W) as F. rewrite Forall_forall in F.
+  now apply (F (k, v)).
+Qed.
+
+Lemma wf_assign c k v : wfc c -> wfv v -> wfc (with_items c (assign k v (items c))).
+Proof.
+  intros W Wv. apply wfc_intro.
+  - unfold keys. rewrite items_with_items. apply assign_NoDup. now apply wfc_keys.
+  - rewrite items_with_items. apply Forall_forall. intros kv H. apply assign_In in H.
+    destruct H as [[E _]|H]; [rewrite E; exact Wv|].
+    pose proof (wfc_values _ W) as F. rewrite Forall_forall in F. now apply F.
+Qed.
+
+Lemma wf_remove c k : wfc c -> wfc (with_items c (remove k (items c))).
+Proof.
+  intros W. apply wfc_intro.
+  - unfold keys. rewrite items_with_items. apply remove_NoDup. now apply wfc_keys.
+  - rewrite items_with_items. apply Forall_forall. intros kv H. apply remove_incl in H.
+    pose proof (wfc_values _ W) as F. rewrite Forall_forall in F. now apply F.
+Qed.
+
+Lemma set_wf t v r c : wfc c -> wfc (fst (c_set t v r c)).
+Proof.
+  intros W. unfold c_set. destruct (tag_ok t); cbn [negb fst]; [|exact W].
+  destruct v as [s|k x].
+  - destruct (negb r && has (tag_str t) (items c)); cbn [fst]; [exact W|]. apply wf_assign; [exact W|constructor].
+  - cbn [fst]. apply wf_assign; [exact W|constructor].
+Qed.
+
+Lemma del_wf t c : wfc c -> wfc (fst (c_del t c)).
+Proof.
+  intros W. unfold c_del. destruct (has (tag_str t) (items c)); cbn [fst]; [|exact W]. now apply wf_remove.
+Qed.
+
+Lemma py_insert_Forall {A} (P : A -> Prop) idx x l : P x -> Forall P l -> Forall P (py_insert idx x l).
+Proof.
+  intros Px F. destruct (py_insert_spec idx x l) as (a & b & E & -> & _). subst l.
+  apply Forall_app in F. destruct F as [Fa Fb]. apply Forall_app. split; [exact Fa|now constructor].
+Qed.
+
+Lemma add_group_wf t item idx c :
+  wfc c -> (forall it, item = Ok it -> wfc it) -> wfc (fst (c_add_group t item idx c)).
+Proof.
+  intros W Wi. unfold c_add_group. destruct item as [it|e]; [|exact W].
+  specialize (Wi it eq_refl).
+  destruct (lookup (tag_str t) (items c)) as [[s|g|k x]|] eqn:L; cbn [fst]; try exact W.
+  - apply wf_assign; [exact W|]. constructor. apply py_insert_Forall; [exact Wi|].
+    pose proof (wf_lookup _ _ _ W L) as Wg. now inversion Wg.
+  - apply wf_assign; [exact W|]. constructor. apply py_insert_Forall; [exact Wi|constructor].
+Qed.
+
+Lemma set_group_wf t g c :
+  wfc c -> (forall g', g = Ok g' -> Forall wfc g') -> wfc (fst (c_set_group t g c)).
+Proof.
+  intros W Wg. unfold c_set_group. destruct (has (tag_str t) (items c)); cbn [fst]; [exact W|].
+  destruct g as [g'|e]; cbn [fst]; [|exact W]. apply wf_assign; [exact W|]. constructor. now apply Wg.
+Qed.
+
+Lemma group_list_wf t c g : wfc c -> c_get_group_list t c = Ok g -> Forall wfc g.
+Proof.
+  intros W. rewrite group_list_classes.
+  destruct (lookup (tag_str t) (items c)) as [[s|g0|k x]|] eqn:L; try discriminate.
+  intros H. inversion H; subst. pose proof (wf_lookup _ _ _ W L) as Wg. now inversion Wg.
+Qed.
+
+Lemma find_group_In gt gv g x : find_group gt gv g = Ok x -> In x g.
+Proof.
+  induction g as [|y g IH]; cbn [find_group]; [discriminate|].
+  destruct (c_contains gt y).
+  - destruct (c_get gt DRaise y) as [r|e]; [|discriminate].
+    destruct (rval_is r gv); intros H; [inversion H; now left|right; now apply IH].
+  - intros H. right. now apply IH.
+Qed.
+
+Lemma group_by_tag_wf t gt gv c x : wfc c -> c_get_group_by_tag t gt gv c = Ok x -> wfc x.
+Proof.
+  intros W. unfold c_get_group_by_tag. destruct (c_get_group_list t c) as [g|e] eqn:G; [|discriminate].
+  intros H. apply find_group_In in H. pose proof (group_list_wf _ _ _ W G) as F.
+  rewrite Forall_forall in F. now apply F.
+Qed.
+
+Lemma nth_res_In n g x : nth_res n g = Ok x -> In x g.
+Proof.
+  unfold nth_res. destruct (nth_error g n) eqn:E; [|discriminate]. intros H. inversion H; subst.
+  now apply nth_error_In in E.
+Qed.
+
+Lemma group_by_index_In t idx c x :
+  c_get_group_by_index t idx c = Ok x -> exists g, c_get_group_list t c = Ok g /\ In x g.
+Proof.
+  unfold c_get_group_by_index. destruct (c_get_group_list t c) as [g|e]; [|discriminate].
+  intros H. exists g. split; [reflexivity|].
+  destruct (Z.of_nat (length g) <=? idx)%Z; [discriminate|].
+  destruct (0 <=? idx)%Z; [now apply nth_res_In in H|].
+  destruct (0 <=? Z.of_nat (length g) + idx)%Z; [now apply nth_res_In in H|discriminate].
+Qed.
+
+Lemma group_by_index_wf t idx c x : wfc c -> c_get_group_by_index t idx c = Ok x -> wfc x.
+Proof.
+  intros W H. destruct (group_by_index_In _ _ _ _ H) as (g & G & I).
+  pose proof (group_list_wf _ _ _ W G) as F. rewrite Forall_forall in F. now apply F.
+Qed.
+
+(* ---- argument literals ---- *)
+
+Section DitemInd.
+  Context (P : ditem -> Prop) (Q : dval -> Prop).
+  Context (HD : forall d, Forall (fun td => Q (snd td)) d -> P (IDict d)).
+  Context (HV : forall j, P (IVar j)).
+  Context (HB : P IBad).
+  Context (HVal : forall v, Q (DVal v)).
+  Context (HL : forall l, Forall P l -> Q (DList l)).
+
+  Fixpoint ditem_ind2 (i : ditem) : P i :=
+    match i with
+    | IDict d =>
+        HD d ((fix go (d : list (tag * dval)) : Forall (fun td => Q (snd td)) d :=
+                 match d with
+                 | [] => Forall_nil _
+                 | td :: d' => Forall_cons td (dval_ind2 (snd td)) (go d')
+                 end) d)
+    | IVar j => HV j
+    | IBad => HB
+    end
+  with dval_ind2 (dv : dval) : Q dv :=
+    match dv with
+    | DVal v => HVal v
+    | DList l =>
+        HL l ((fix go (l : list ditem) : Forall P l :=
+                 match l with
+                 | [] => Forall_nil _
+                 | i :: l' => Forall_cons i (ditem_ind2 i) (go l')
+                 end) l)
+    end.
+End DitemInd.
+
+Definition dentry_wf (e : dentry) : Prop :=
+  match e with EGrp (Ok g) => Forall wfc g | _ => True end.
+
+Lemma init_step_wf c t e c' : wfc c -> dentry_wf e -> init_step c t e = Ok c' -> wfc c'.
+Proof.
+  intros W We. unfold init_step. destruct e as [v|g].
+  - pose proof (set_wf t v false c W) as H. destruct (c_set t v false c) as [c1 [u|x]]; [|discriminate].
+    intros E. inversion E; subst. exact H.
+  - assert (H : wfc (fst (c_set_group t g c))).
+    { apply set_group_wf; [exact W|]. intros g' ->. exact We. }
+    destruct (c_set_group t g c) as [c1 [u|x]]; [|discriminate]. intros E. inversion E; subst. exact H.
+Qed.
+
+Lemma build_from_wf conv d :
+  Forall (fun td => dentry_wf (conv (snd td))) d ->
+  forall c c', wfc c -> build_from conv d c = Ok c' -> wfc c'.
+Proof.
+  intros F. induction F as [|td d Hd F IH]; intros c c' W; cbn [build_from].
+  - intros H. inversion H; subst. exact W.
+  - destruct (init_step c (fst td) (conv (snd td))) as [c1|e] eqn:E; [|discriminate].
+    apply IH. eapply init_step_wf; eauto.
+Qed.
+
+Lemma mapM_Forall {A B} (f : A -> res B) (P : B -> Prop) l ys :
+  Forall (fun x => forall y, f x = Ok y -> P y) l -> mapM f l = Ok ys -> Forall P ys.
+Proof.
+  intros F. revert ys. induction F as [|x l Hx F IH]; intros ys; cbn [mapM].
+  - intros H. inversion H. constructor.
+  - destruct (f x) as [y|e] eqn:E; [|discriminate]. destruct (mapM f l) as [ys'|e]; [|discriminate].
+    intros H. inversion H; subst. constructor; [now apply Hx|now apply IH].
+Qed.
+
+Lemma conv_item_dict p d : conv_item p (IDict d) = build_from (conv_dval p) d empty.
+Proof. reflexivity. Qed.
+Lemma conv_dval_list p l : conv_dval p (DList l) = EGrp (mapM (conv_item p) l).
+Proof. reflexivity. Qed.
+
+Section ConvWf.
+  Context (p : list container) (Wp : Forall wfc p).
+
+  Lemma var_wf j : wfc (nth j p empty).
+  Proof.
+    destruct (nth_in_or_default j p empty) as [H| ->]; [|apply wf_empty].
+    rewrite Forall_forall in Wp. now apply Wp.
+  Qed.
+
+  Lemma conv_item_wf i : forall c, conv_item p i = Ok c -> wfc c.
+  Proof.
+    apply (ditem_ind2 (fun i => forall c, conv_item p i = Ok c -> wfc c)
+                      (fun dv => dentry_wf (conv_dval p dv))).
+    - intros d F c H. rewrite conv_item_dict in H. eapply build_from_wf; [exact F|apply wf_empty|exact H].
+    - intros j c H. change (conv_item p (IVar j)) with (Ok (nth j p empty)) in H. inversion H. apply var_wf.
+    - intros c H. discriminate H.
+    - intros v. exact I.
+    - intros l F. rewrite conv_dval_list. cbn [dentry_wf]. destruct (mapM (conv_item p) l) as [g|e] eqn:E; [|exact I].
+      eapply mapM_Forall; [exact F|exact E].
+  Qed.
+
+  Lemma conv_dval_wf dv : dentry_wf (conv_dval p dv).
+  Proof.
+    destruct dv as [v|l]; [exact I|]. rewrite conv_dval_list. cbn [dentry_wf].
+    destruct (mapM (conv_item p) l) as [g|e] eqn:E; [|exact I].
+    eapply mapM_Forall; [|exact E]. apply Forall_forall. intros i _. apply conv_item_wf.
+  Qed.
+
+  Lemma c_new_wf m d c : c_new p m d = Ok c -> wfc c.
+  Proof.
+    unfold c_new. apply build_from_wf; [|apply wf_empty].
+    apply Forall_forall. intros td _. apply conv_dval_wf.
+  Qed.
+
+  Lemma conv_items_wf l g : mapM (conv_item p) l = Ok g -> Forall wfc g.
+  Proof. apply mapM_Forall. apply Forall_forall. intros i _. apply conv_item_wf. Qed.
+End ConvWf.
+
+(* ---- the run ---- *)
+
+Lemma set_nth_Forall {A} (P : A -> Prop) n x l : P x -> Forall P l -> Forall P (set_nth n x l).
+Proof.
+  intros Px F. revert n. induction F as [|y l Hy F IH]; intros [|n]; cbn [set_nth]; try constructor; auto.
+Qed.
+
+Lemma step_wf p o : Forall wfc p -> Forall wfc (fst (step p o)).
+Proof.
+  intros W. pose proof (var_wf p W) as V.
+  destruct o; cbn [step]; try exact W.
+  - destruct (c_new p m d) as [c|e] eqn:E; cbn [fst]; [|exact W].
+    apply set_nth_Forall; [|exact W]. eapply c_new_wf; eauto.
+  - pose proof (set_wf t v replace (var p i) (V i)) as H.
+    destruct (c_set t v replace (var p i)) as [c x]. cbn [fst] in *. now apply set_nth_Forall.
+  - pose proof (del_wf t (var p i) (V i)) as H.
+    destruct (c_del t (var p i)) as [c x]. cbn [fst] in *. now apply set_nth_Forall.
+  - assert (H : wfc (fst (c_add_group t (conv_item p it) idx (var p i)))).
+    { apply add_group_wf; [apply V|]. intros it'. now apply conv_item_wf. }
+    destruct (c_add_group t (conv_item p it) idx (var p i)) as [c x]. cbn [fst] in *. now apply set_nth_Forall.
+  - assert (H : wfc (fst (c_set_group t (mapM (conv_item p) l) (var p i)))).
+    { apply set_group_wf; [apply V|]. intros g'. now apply conv_items_wf. }
+    destruct (c_set_group t (mapM (conv_item p) l) (var p i)) as [c x]. cbn [fst] in *. now apply set_nth_Forall.
+  - cbn [fst]. unfold store. destruct dst as [j|]; [|exact W].
+    destruct (c_get_group_by_tag t gt gv (var p i)) as [c|e] eqn:E; [|exact W].
+    apply set_nth_Forall; [|exact W]. eapply group_by_tag_wf; [apply V|exact E].
+  - cbn [fst]. unfold store. destruct dst as [j|]; [|exact W].
+    destruct (c_get_group_by_index t idx (var p i)) as [c|e] eqn:E; [|exact W].
+    apply set_nth_Forall; [|exact W]. eapply group_by_index_wf; [apply V|exact E].
+  - cbn [fst]. pose proof (V i) as H. unfold var in *. destruct (nth i p empty) as [[s0|] l]; [|exact W].
+    apply set_nth_Forall; [|exact W]. inversion H; subst. now constructor.
+Qed.
+
+Lemma init_wf n : Forall wfc (init n).
+Proof. unfold init. induction n; cbn; constructor; [apply wf_empty|assumption]. Qed.
+
+(* keys stay unique, at every depth, in every variable, after every operation sequence *)
+Lemma reachable_wf n ops : Forall wfc (run_state n ops).
+Proof.
+  unfold run_state.
+  assert (G : forall p, Forall wfc p -> Forall wfc (fold_left (fun p o => fst (step p o)) ops p)).
+  { induction ops as [|o ops IH]; cbn [fold_left]; intros p W; [exact W|]. apply IH. now apply step_wf. }
+  apply G. apply init_wf.
+Qed.
+
+Lemma reachable_unique_keys n ops c : In c (run_state n ops) -> NoDup (keys c).
+Proof.
+  intros H. pose proof (reachable_wf n ops) as F. rewrite Forall_forall in F. apply wfc_keys. now apply F.
+Qed.
+
+(* ================================================================ equality with a dict *)
+
+Definition dict_key (tv : tag * str) : str := tag_str (fst tv).
+Definition holds_pair (c : container) (tv : tag * str) : Prop :=
+  lookup (dict_key tv) (items c) = Some (VStr (snd tv)).
+Definition same_core_keys (other : list (tag * str)) (c : container) : Prop :=
+  set_eqb (core_keys (map dict_key other)) (core_keys (keys c)) = true.
+(* known-finding class D18-eq-dict-framing-tag: the dict names one of the four framing tags *)
+Definition framing_free (other : list (tag * str)) : Prop :=
+  Forall (fun tv => mem (dict_key tv) ignore_tags = false) other.
+(* what the property asks for: same tags and same values, the framing tags left out on both sides *)
+Definition dict_content_eq (other : list (tag * str)) (c : container) : Prop :=
+  same_core_keys other c /\
+  Forall (fun tv => mem (dict_key tv) ignore_tags = true \/ holds_pair c tv) other.
+
+Lemma eq_dict_loop_true other c : eq_dict_loop other c = Ok true <-> Forall (holds_pair c) other.
+Proof.
+  induction other as [|[t v] o IH]; cbn [eq_dict_loop].
+  - split; [constructor|reflexivity].
+  - unfold c_is_group, c_get. unfold holds_pair at 1. unfold dict_key. cbn [fst snd].
+    destruct (lookup (tag_str t) (items c)) as [[s|g|[] x]|] eqn:L; cbn [rval_is];
+      try (split; [discriminate|intros F; inversion F as [|? ? H _]; subst; unfold holds_pair, dict_key in H;
+                                 cbn [fst snd] in H; rewrite L in H; discriminate]).
+    destruct (str_eqb s v) eqn:E.
+    + apply str_eqb_eq in E. subst. rewrite IH. split; intros F.
+      * constructor; [|exact F]. unfold holds_pair, dict_key. cbn [fst snd]. exact L.
+      * now inversion F.
+    + split; [discriminate|]. intros F. inversion F as [|? ? H _]; subst.
+      unfold holds_pair, dict_key in H. cbn [fst snd] in H. rewrite L in H. inversion H; subst.
+      rewrite str_eqb_refl in E. discriminate.
+Qed.
+
+Lemma eq_dict_true_iff other c :
+  c_eq_dict other c = Ok true <-> same_core_keys other c /\ Forall (holds_pair c) other.
+Proof.
+  unfold c_eq_dict, same_core_keys, keys, dict_key.
+  destruct (set_eqb _ _).
+  - rewrite eq_dict_loop_true. split; [now split|now intros [_ H]].
+  - split; [discriminate|intros [H _]; discriminate].
+Qed.
+
+(* outside the known class, == dict is True exactly when the content is the same *)
+Lemma eq_dict_partial other c :
+  framing_free other -> (c_eq_dict other c = Ok true <-> dict_content_eq other c).
+Proof.
+  intros FF. unfold framing_free in FF. rewrite eq_dict_true_iff. unfold dict_content_eq. split; intros [K F]; (split; [exact K|]).
+  - eapply Forall_impl; [|exact F]. intros tv H. now right.
+  - rewrite Forall_forall in *. intros tv I. destruct (F tv I) as [H|H]; [|exact H].
+    rewrite (FF tv I) in H. discriminate.
+Qed.
+
+Lemma forallb_mem_incl a b : forallb (fun k => mem k b) a = true -> forall k, In k a -> In k b.
+Proof. intros H k I. rewrite forallb_forall in H. apply mem_In. now apply H. Qed.
+
+(* ... and it does not raise when the message holds plain values only *)
+Lemma eq_dict_total other c :
+  framing_free other -> Forall (fun kv => exists s, snd kv = VStr s) (items c) ->
+  exists b, c_eq_dict other c = Ok b.
+Proof.
+  intros FF PV. unfold framing_free in FF. unfold c_eq_dict.
+  destruct (set_eqb _ _) eqn:S; [|now exists false].
+  unfold set_eqb in S. apply andb_true_iff in S. destruct S as [S _].
+  assert (K : forall tv, In tv other -> exists s, lookup (dict_key tv) (items c) = Some (VStr s)).
+  { intros tv I. assert (I' : In (dict_key tv) (map fst (items c))).
+    { assert (J : In (dict_key tv) (core_keys (map (fun tv0 => tag_str (fst tv0)) other))).
+      { unfold core_keys. apply filter_In. split.
+        - apply in_map_iff. now exists tv.
+        - rewrite Forall_forall in FF. now rewrite (FF tv I). }
+      pose proof (forallb_mem_incl _ _ S _ J) as J'. unfold core_keys in J'. apply filter_In in J'. now destruct J'. }
+    apply has_In in I'. unfold has in I'. destruct (lookup (dict_key tv) (items c)) as [v|] eqn:L; [|discriminate].
+    apply lookup_In in L. rewrite Forall_forall in PV. destruct (PV _ L) as [s E]. cbn [snd] in E. subst.
+    now exists s. }
+  clear S FF. induction other as [|[t v] o IH]; cbn [eq_dict_loop]; [now exists true|].
+  destruct (K (t, v) (or_introl eq_refl)) as [s L]. unfold dict_key in L. cbn [fst] in L.
+  unfold c_is_group, c_get. rewrite L. cbn [rval_is]. destruct (str_eqb s v); [|now exists false].
+  apply IH. intros tv I. apply K. now right.
+Qed.
+
+(* ================================================================ one statement for all spellings *)
+
+Lemma spelling_independent t1 t2 :
+  tag_str t1 = tag_str t2 ->
+  (forall v r c, c_set t1 v r c = c_set t2 v r c) /\
+  (forall d c, c_get t1 d c = c_get t2 d c) /\
+  (forall c, c_del t1 c = c_del t2 c) /\
+  (forall c, c_contains t1 c = c_contains t2 c) /\
+  (forall c, c_is_group t1 c = c_is_group t2 c) /\
+  (forall it idx c, c_add_group t1 it idx c = c_add_group t2 it idx c) /\
+  (forall g c, c_set_group t1 g c = c_set_group t2 g c) /\
+  (forall c, c_get_group_list t1 c = c_get_group_list t2 c) /\
+  (forall idx c, c_get_group_by_index t1 idx c = c_get_group_by_index t2 idx c) /\
+  (forall t gv c, c_get_group_by_tag t1 t gv c = c_get_group_by_tag t2 t gv c) /\
+  (forall t gv c, c_get_group_by_tag t t1 gv c = c_get_group_by_tag t t2 gv c).
+Proof.
+  intros H. repeat split; intros.
+  - now apply set_spelling.
+  - now apply get_spelling.
+  - now apply del_spelling.
+  - now apply contains_spelling.
+  - now apply is_group_spelling.
+  - now apply add_group_spelling.
+  - now apply set_group_spelling.
+  - now apply group_list_spelling.
+  - now apply group_by_index_spelling.
+  - now apply group_by_tag_spelling.
+  - now apply group_by_tag_spelling.
+Qed.
+
+Lemma int_tags_distinct a b : tag_str (TInt a) = tag_str (TInt b) -> a = b.
+Proof. apply z_to_dec_inj. Qed.
+
+(* ================================================================ what does not hold (DESIGN.md ledger D18) *)
+
+(* add_group on a tag that holds a plain value: AttributeError, for every such call *)
+Lemma add_group_on_plain t it idx c s :
+  lookup (tag_str t) (items c) = Some (VStr s) -> c_add_group t (Ok it) idx c = (c, Exc EAttributeError).
+Proof. intros L. unfold c_add_group. now rewrite L. Qed.
+
+Definition w_a : container := C None [([49], VStr [97; 124; 50; 61; 98])].          (* {1: "a|2=b"} *)
+Definition w_b : container := C None [([49], VStr [97]); ([50], VStr [98])].        (* {1: "a", 2: "b"} *)
+
+Lemma eq_collision : exists a b, c_eq a b = true /\ items a <> items b.
+Proof. exists w_a, w_b. split; [vm_compute; reflexivity|discriminate]. Qed.
+
+Lemma eq_content_full_refuted : ~ (forall a b, c_eq a b = true <-> items a = items b).
+Proof.
+  intros H. destruct eq_collision as (a & b & E & N). apply N. now apply H.
+Qed.
+
+Definition w_msg : container := C (Some [68]) [([49], VStr [97])].                  (* FIXMessage("D", {1: "a"}) *)
+Definition w_dict : list (tag * str) := [(TInt 35, [68]); (TInt 1, [97])].           (* {35: "D", 1: "a"} *)
+
+Lemma eq_dict_raises :
+  exists other c, dict_content_eq other c /\ c_eq_dict other c = Exc ETagNotFound.
+Proof.
+  exists w_dict, w_msg. split; [|vm_compute; reflexivity]. split; [vm_compute; reflexivity|].
+  constructor; [left; vm_compute; reflexivity|]. constructor; [right; reflexivity|constructor].
+Qed.
+
+Definition w_msg2 : container := C (Some [68]) [([51; 53], VStr [68]); ([49], VStr [97])].   (* {35: "D", 1: "a"} *)
+Definition w_dict2 : list (tag * str) := [(TInt 35, [88]); (TInt 1, [97])].                  (* {35: "X", 1: "a"} *)
+
+Lemma eq_dict_framing_value :
+  exists other c, dict_content_eq other c /\ c_eq_dict other c = Ok false.
+Proof.
+  exists w_dict2, w_msg2. split; [|vm_compute; reflexivity]. split; [vm_compute; reflexivity|].
+  constructor; [left; vm_compute; reflexivity|]. constructor; [right; reflexivity|constructor].
+Qed.
+
+Lemma eq_dict_full_refuted :
+  ~ (forall other c, dict_content_eq other c -> c_eq_dict other c = Ok true).
+Proof.
+  intros H. destruct eq_dict_raises as (o & c & D & E). rewrite (H o c D) in E. discriminate.
+Qed.
+
+Lemma add_group_plain :
+  exists t it c, c_is_group t c = Some false /\ c_add_group t (Ok it) (-1) c = (c, Exc EAttributeError).
+Proof. exists (TInt 1), empty, w_msg. split; vm_compute; reflexivity. Qed.
+
+Definition w_grp : container := C None [([55; 56], VGrp [empty; empty])].           (* {78: [{}, {}]} *)
+
+Lemma group_index_below :
+  exists t idx c g, c_get_group_list t c = Ok g /\ (idx < - Z.of_nat (length g))%Z
+                    /\ c_get_group_by_index t idx c = Exc EIndexError.
+Proof. exists (TInt 78), (-3)%Z, w_grp, [empty; empty]. repeat split; vm_compute; reflexivity. Qed.
+
+(* a non-integer tag is refused by set but accepted as a group tag *)
+Lemma group_nonint_tag :
+  exists t c', tag_ok t = false /\ c_set_group t (Ok []) empty = (c', Ok tt) /\ c_contains t c' = true
+               /\ c_add_group t (Ok empty) (-1) empty = (C None [(tag_str t, VGrp [empty])], Ok tt)
+               /\ c_query [] c' = Exc EValueError.
+Proof. exists (TStr [120]), (C None [([120], VGrp [])]). repeat split; vm_compute; reflexivity. Qed.
+
+(* ================================================================ non-vacuity *)
+
+Definition ACCOUNT : str := [65; 99; 99; 111; 117; 110; 116].
+Definition ex_ops : list op :=
+  [ONew 0 None [(TFTag ACCOUNT, DVal (SVal [97]));
+                (TInt 78, DList [IDict [(TStr [55; 57], DVal (SVal [120]))]; IDict []])];
+   OSet 1 (TInt 1) (SVal [97]) false;
+   OAddGroup 1 (TStr [55; 56]) (IDict [(TInt 79, DVal (SVal [120]))]) (-1);
+   OAddGroup 1 (TInt 78) (IDict []) 5;
+   OSet 1 (TStr [49]) (SVal [98]) false;
+   OSet 2 (TInt 35) (SVal [68]) false;
+   OSet 2 (TStr [32; 53]) (SVal [98]) false].
+
+Lemma nonvacuous :
+  let p := run_state 3 ex_ops in
+  clean (var p 0) = true /\ clean (var p 1) = true /\ c_eq (var p 0) (var p 1) = true
+  /\ items (var p 0) = items (var p 1)
+  /\ items (var p 0) = [([49], VStr [97]); ([55; 56], VGrp [C None [([55; 57], VStr [120])]; C None []])]
+  /\ c_get (TFTag ACCOUNT) DRaise (var p 1) = Ok (RvStr [97])
+  /\ framing_free [(TInt 1, [97])] /\ dict_content_eq [(TInt 1, [97])] (C None [([49], VStr [97])])
+  /\ keys (var p 2) = [[51; 53]; [32; 53]] /\ clean (var p 2) = false.
+Proof.
+  cbv zeta.
+  split; [vm_compute; reflexivity|]. split; [vm_compute; reflexivity|].
+  split; [vm_compute; reflexivity|]. split; [vm_compute; reflexivity|].
+  split; [vm_compute; reflexivity|]. split; [vm_compute; reflexivity|].
+  split; [constructor; [vm_compute; reflexivity|constructor]|].
+  split; [split; [vm_compute; reflexivity|constructor; [right; reflexivity|constructor]]|].
+  split; vm_compute; reflexivity.
+Qed.
